@@ -111,12 +111,34 @@ def tlv_end(d, o):
     return tag_end(d, o) + len_hdr_size(d, tag_end(d, o)) + len_value(d, tag_end(d, o))
 
 
-def uninterpreted(f):
-    return f
-
-
 @uninterpreted
 def accepts(type_id, data, offset) -> Bool:
     """the BER type object `type_id` recognises the identifier octets at data[offset:] as its own (ghost predicate:
     each concrete decode defines it for its class; natively not evaluated)"""
     return True
+
+
+@uninterpreted
+def content_of(type_id, value) -> Seq:
+    """the content octets the BER/DER type object `type_id` produces for `value` (ghost: each concrete
+    encode_content defines it for its class)"""
+    return []
+
+
+def is_tlv(enc, before, tag, content):
+    """enc == before ++ tag ++ L ++ content where L is the definite minimal length of content (X.690 8.1, 10.1)"""
+    n = len(enc)
+    return (n >= len(before) + len(tag) + 1 + len(content)
+            and enc[:len(before)] == before
+            and enc[len(before):len(before) + len(tag)] == tag
+            and is_der_length(enc[len(before) + len(tag):n - len(content)], len(content))
+            and enc[n - len(content):] == content)
+
+
+def bits_content_ok(r, b, n):
+    """BIT STRING contents (X.690 8.6.2, DER 11.2.1): initial octet = number of unused bits (0..7), then the
+    ceil(n/8) octets of the value with every unused bit zero"""
+    if n % 8 == 0:
+        return len(r) == 1 + n // 8 and r[0] == 0 and r[1:] == b[:n // 8]
+    return (len(r) == 2 + n // 8 and r[0] == 8 - n % 8 and r[1:1 + n // 8] == b[:n // 8]
+            and r[1 + n // 8] == b[n // 8] - b[n // 8] % pow2(8 - n % 8))
